@@ -347,6 +347,26 @@ theorem foldlM_processNode_frame (tbl : UnitTable) (ns : List Node) (env env' : 
       obtain ⟨c, d⟩ := ih env1 h
       exact ⟨c.trans a, d.trans b⟩
 
+theorem addUnit_frame (tbl : UnitTable) (env env' : Env) (name : Str) (v : Val) (unit : Option Str)
+    (h : addUnit tbl env name v unit = .ok env') :
+    env'.sources = env.sources ∧ ∃ us, env'.units = env.units ++ us := by
+  unfold addUnit at h
+  cases v with
+  | num q =>
+    simp only at h
+    cases h1 : unitKnown tbl unit with
+    | false => simp [h1] at h
+    | true =>
+      cases h2 : env.units.any (fun u => decide (u.1 = name)) with
+      | true => simp [h1, h2] at h
+      | false =>
+        simp only [h1, h2, Bool.not_true, Bool.false_eq_true, if_false, Except.ok.injEq] at h
+        rw [← h]
+        exact ⟨rfl, _, rfl⟩
+  | bool b => simp at h
+  | str s => simp at h
+  | arr l => simp at h
+
 theorem step_frame (tbl : UnitTable) (env env' : Env) (it : Item)
     (h : step tbl env it = .ok env') :
     env'.sources = env.sources ∧ ∃ us, env'.units = env.units ++ us := by
@@ -358,9 +378,26 @@ theorem step_frame (tbl : UnitTable) (env env' : Env) (it : Item)
     | ok ns => simp only [hu] at h; cases h; exact ⟨rfl, [], by simp⟩
   | unitdef name value unit =>
     simp only [step] at h
-    split at h
-    · cases h
-    · cases h; exact ⟨rfl, _, rfl⟩
+    exact addUnit_frame tbl env env' name value unit h
+  | unitref name ref unit =>
+    simp only [step] at h
+    cases hi : injectHost env ref unit with
+    | error e => simp [hi] at h
+    | ok vu =>
+      obtain ⟨v, u⟩ := vu
+      simp only [hi] at h
+      exact addUnit_frame tbl env env' name v u h
+  | optref ref unit =>
+    simp only [step] at h
+    cases hi : injectHost env ref unit with
+    | error e => simp [hi] at h
+    | ok vu =>
+      obtain ⟨v, u⟩ := vu
+      simp only [hi] at h
+      cases hu : updateLast (applyProp (.option v u)) env.nodes with
+      | error e => simp [hu] at h
+      | ok ns => simp only [hu] at h; cases h; exact ⟨rfl, [], by simp⟩
+  | case i k => simp [step] at h
   | node n =>
     simp only [step] at h
     split at h
